@@ -48,6 +48,7 @@ type Result struct {
 	Unsat        int                          `json:"queries_unsat"`
 	Unknown      int                          `json:"queries_unknown"`
 	SolverSec    float64                      `json:"solver_time_s"`
+	Fallbacks    int                          `json:"fallback_queries"`
 	WallSec      float64                      `json:"wall_s"`
 	Instrs       int64                        `json:"instructions"`
 	PathSamples  []string                     `json:"path_samples,omitempty"`
@@ -63,6 +64,8 @@ type harnessRun struct {
 	witness       map[string]map[string]string
 	assertSeen    map[string]int
 	logw          io.Writer
+	clock         string
+	clockTicks    int64
 }
 
 type sharedRun struct {
@@ -115,6 +118,7 @@ type Options struct {
 	MaxInstrs  int64
 	Verbose    bool
 	GoMode     string
+	Clock      string
 	Budget     time.Duration
 	Model      map[string]string // concrete re-execution of one model
 }
@@ -175,6 +179,7 @@ func worker(p *Program, fn *ssa.Function, opt Options, sh *sharedRun) {
 			sh.res.Unsat += i.solver.nUnsat
 			sh.res.Unknown += i.solver.nUnknown
 			sh.res.SolverSec += i.solver.solverTime.Seconds()
+			sh.res.Fallbacks += i.solver.nFallback
 			sh.res.Decisions += i.stats.decisions
 			sh.res.Forks += i.stats.forks
 			for k, v := range i.covered {
@@ -249,7 +254,7 @@ func worker(p *Program, fn *ssa.Function, opt Options, sh *sharedRun) {
 
 // runPath executes the harness once along prefix.
 func runPath(i *interpreter, fn *ssa.Function, prefix []choice, opt Options, sh *sharedRun) (trace []choice, instrs int64, sample string) {
-	i.h = &harnessRun{shared: sh, goMode: opt.GoMode, concreteModel: opt.Model, reached: map[string]bool{}, witness: map[string]map[string]string{}, assertSeen: map[string]int{}, logw: os.Stderr}
+	i.h = &harnessRun{shared: sh, goMode: opt.GoMode, clock: opt.Clock, concreteModel: opt.Model, reached: map[string]bool{}, witness: map[string]map[string]string{}, assertSeen: map[string]int{}, logw: os.Stderr}
 	i.newPath(prefix)
 	i.stack = i.stack[:0]
 	i.panicDepth, i.panicStack = 0, ""
@@ -378,7 +383,13 @@ func panicString(i *interpreter, v value) string {
 		if p, ok := e.v.(*value); ok && p != nil {
 			if st, ok := (*p).(structure); ok && len(st) > 0 {
 				if s, ok := st[0].(string); ok {
-					return fmt.Sprintf("%s{%s}", e.t, s)
+					det := ""
+					if len(st) > 2 {
+						if d, ok := st[2].(string); ok && d != "" {
+							det = " <" + d + ">"
+						}
+					}
+					return fmt.Sprintf("%s{%s}%s", e.t, s, det)
 				}
 			}
 		}
